@@ -45,6 +45,7 @@ async def scenario(loop, plan, r, out):
     V = plan["v"]
     stack = Stack(loop, V, window=plan.get("K", 1), fh=plan.get("fh"), fn=plan.get("fn"), fg=plan.get("fg")).install()
     out["stack"] = stack
+    stack.line.merge_reads = bool(plan.get("merge"))
     if plan.get("announce") is not None:
         # an adapter that reboots when the port is opened announces that reboot (RSTACK with a power-on / external code)
         # just before it answers the host's RST; no application is attached yet, so it is nobody's business
@@ -213,6 +214,10 @@ def check(plan) -> Result:
             r.bad(f"C09:wrong-version:{vtag}", f"{key}: ezsp_version/table {out[key]}, NCP is {V}; plan {plan}")
     if "version_after_reset" in out and out["version_after_reset"][1] != 4:
         r.bad("C09:no-legacy-fallback-after-reset", f"after reset() the active handler is v{out['version_after_reset'][1]}; plan {plan}")
+    if stack.rx_raised:
+        r.bad("C09:receive-callback-raises", f"{stack.rx_raised[0]}; plan {plan}")
+    if plan.get("merge"):
+        r.cls("frames-back-to-back-in-one-read")
     # --- wire: first host write
     hw = stack.host_writes
     spont_seen_first = plan["path"] == "socket" and plan.get("spont") == "seen"
@@ -304,6 +309,7 @@ def plans(draw):
     if draw(st.booleans()):
         plan["fh"] = draw(st.lists(fate, max_size=30))
         plan["fn"] = draw(st.lists(fate, max_size=30))
+        plan["merge"] = draw(st.booleans())
     else:
         plan["use"] = draw(st.booleans())
         plan["bg"] = draw(st.integers(0, 3)) == 0
@@ -352,6 +358,11 @@ def enum_plans(quick):
         for k in range(depth):
             for f in (["x"], ["c", 9], ["2"]):
                 out.append({"v": v, "path": "serial", "second": "reset", "fg": [["d"]] * k + [f]})
+                if f == ["2"]:
+                    # the duplicate arrives in the same read as the original
+                    out.append({"v": v, "path": "serial", "second": "reset", "fg": [["d"]] * k + [f], "merge": True})
+                    if k < 4:
+                        out.append({"v": v, "path": "socket", "second": "startup", "spont": "absent", "fg": [["d"]] * k + [f], "merge": True})
     return out
 
 
